@@ -154,10 +154,10 @@ CHECKS["C13"] = {
     "engine": "SCOPE (type grammar x boundary values x single mutations)",
     "technique": "bounded-exhaustive enumeration of the FieldType grammar to depth 4, of boundary-covering valid values and of every single mutation of them, through both write entries and the stored CBOR form, against the documented validity contract",
     "design_ref": "DESIGN.md 5/C13",
-    "text": "roundtrip: every FieldType to depth 2 (226 types), depth 3 (1,452 quick / 103,292 thorough) and depth 4 (1,330 / 8,962) incl. tuple and heterogeneous arrays, wildcard and keyed maps with Text/I64/Bytes keys; per type boundary-covering valid values and every single mutation (each node swapped with 27 alien values, array drop/append, each map key removed, extra keys, complexity budget at limit and limit+1), written by Document::set_field and by Document::try_from of a typed wrapper, validated, encoded to the stored CBOR, decoded, normalised by try_from_doc: accepted implies reads back valid and bit-equal in the declared variant (typed round trip equal), invalid implies rejected at write, nothing panics. derive: 11 AndaDBSchema structs + 3 FieldTyped structs + Resource covering every Rust type and attribute the macros infer, every boundary row round-tripped, 26 one-defect offers rejected. upgrade: all chains of <= 3 (thorough 4) upgrades over 3 top-level names and 2 nested keys in states absent / required T / Option(T) / Option(T'): every document written under every earlier version reads back under every permitted later version with unchanged surviving fields. collection: 1,678 shapes through Collection::add/get with zstd level 0 and 3, close, reopen, get.",
+    "text": "roundtrip: every FieldType to depth 2 (226 types), depth 3 (1,452 quick / 103,292 thorough) and depth 4 (1,330 / 8,962) incl. tuple and heterogeneous arrays, wildcard and keyed maps with Text/I64/Bytes keys; per type boundary-covering valid values and every single mutation (each node swapped with 27 alien values, array drop/append, each map key removed, extra keys, complexity budget at limit and limit+1), written by Document::set_field, by Document::set_field_as (typed, field by field) and by Document::try_from of a typed wrapper, validated, encoded to the stored CBOR, decoded, normalised by try_from_doc: accepted implies reads back valid and bit-equal in the declared variant (typed round trip equal), invalid implies rejected at write, nothing panics. derive: 11 AndaDBSchema structs + 3 FieldTyped structs + Resource covering every Rust type and attribute the macros infer, every boundary row round-tripped, 26 one-defect offers rejected. upgrade: all chains of <= 3 (thorough 4) upgrades over 3 top-level names and 2 nested keys in states absent / required T / Option(T) / Option(T'): every document written under every earlier version reads back under every permitted later version with unchanged surviving fields. collection: 1,678 shapes through Collection::add/get with zstd level 0 and 3, close, reopen, get.",
     "note": "From depth 3 on only three valid values per type are mutated in quick (stated in the evidence). Json slots given non-Json variants and NaN in untyped arrays are neither required nor forbidden to be accepted; if accepted they must round-trip. The JSON (human-readable) read-back form, Arc/Rc fields and #[cbor(key)] are not covered. Two recorded defects (vector in an untyped slot; nested key re-added with another type).",
     "parts": [
-        {"part": "roundtrip", "crate": "vschema", "bin": "c13_roundtrip", "budget_quick": 28, "budget_thorough": 900},
+        {"part": "roundtrip", "crate": "vschema", "bin": "c13_roundtrip", "budget_quick": 35, "budget_thorough": 900},
         {"part": "derive", "crate": "vschema", "bin": "c13_derive", "budget_quick": 5, "budget_thorough": 60},
         {"part": "upgrade", "crate": "vschema", "bin": "c13_upgrade", "budget_quick": 8, "budget_thorough": 400},
         {"part": "collection", "crate": "vschema", "bin": "c13_collection", "budget_quick": 6, "budget_thorough": 200},
@@ -197,11 +197,12 @@ CHECKS["C14"] = {
     "engine": "HIST (BFS over control-plane histories) + SCOPE (complete request matrix per state)",
     "technique": "breadth-first explicit-state search over control-plane event histories of the real server (merged by canonical control state), with the complete route x method x principal x encoding x target request matrix evaluated at every state through the real router over a journalling store",
     "design_ref": "DESIGN.md 5/C14",
-    "text": "hist: BFS over {create A/B with or without key, set_api_key, remove_api_key, close, open, connect, restart} from three roots (admin key; loopback; admin + A(key) + B(key)) to depth 2 (quick) / 8 (thorough, exhaustive: 1,213 states); at every state the full matrix: GET /, POST /, POST to 11 target spellings (A, B, percent-encoded, with query string, missing, primary, bad name, encoded slash, path-only) x every method of both dispatch tables (scraped from api/mod.rs at build time and cross-checked) + 3 unknown names x minimal/malformed params + 6 body probes x CBOR/JSON x principals {none, garbage, malformed header, admin, every issued or revoked token, an unissued one, the hash of the bound key}, each state replayed in four worlds (rejected cells; key holder on its own db; a twin world where only the other database differs; admin): every rejected response is byte-identical to the same caller's request for a nonexistent database, is 401/403 and causes no store call (never 400/404/413/415 first); the key holder's store calls stay under its prefix; no response contains the other database's name, data, tokens, hashes or instance state; answers are byte-identical in the twin world; an admin dump of the other database and server state is unchanged by every mutating cell. reads: every Read-classified method x 12 lifecycle states x {admin, key holder} x {CBOR, JSON} on a fresh server with the method as the first request touching the database: zero journalled mutations.",
+    "text": "hist: BFS over {create A/B with or without key, set_api_key, remove_api_key, close, open, connect, restart} from three roots (admin key; loopback; admin + A(key) + B(key)) to depth 2 (quick) / 8 (thorough, exhaustive: 1,213 states); at every state the full matrix: GET /, POST /, POST to 11 target spellings (A, B, percent-encoded, with query string, missing, primary, bad name, encoded slash, path-only) x every method of both dispatch tables (scraped from api/mod.rs at build time and cross-checked) + 3 unknown names x minimal/malformed params + 6 body probes x CBOR/JSON x principals {none, garbage, malformed header, admin, every issued or revoked token, an unissued one, the hash of the bound key}, each state replayed in four worlds (rejected cells; key holder on its own db; a twin world where only the other database differs; admin): every rejected response is byte-identical to the same caller's request for a nonexistent database, is 401/403 and causes no store call (never 400/404/413/415 first); the key holder's store calls stay under its prefix; no response contains the other database's name, data, tokens, hashes or instance state; answers are byte-identical in the twin world; an admin dump of the other database and server state is unchanged by every mutating cell. faults: in every control state to depth 1 (thorough 3) every writing control-plane event (create with/without key, set_api_key incl. the server-generated-key form, remove_api_key, close, open, connect) with each of its backend mutations answered ErrBefore and ErrAfter once: afterwards every credential (none, garbage, issued, revoked, mentioned, unissued) on every target, live and after a restart, is answered as in the model state before OR after the event, never a third state. hist additionally: constructed near-miss credentials per key (digest agreeing in the first/last 1-2 bytes, prefix/extension, hex of the hash), the generated-key form of db.set_api_key as event and as request, a restart lookahead and a restart WITHOUT admin key at every state (must be refused while any binding exists). reads: every Read-classified method x 12 lifecycle states x {admin, key holder} x {CBOR, JSON} on a fresh server with the method as the first request touching the database: zero journalled mutations.",
     "note": "One request at a time (no concurrent key rotation); observable = status, headers, body, store journal - no timing. Effect labels come from the source text of the parse tables. Recorded finding: in the lifecycle state 'cold collection with crash residue' the first Read-classified request runs recovery and flushes (11 method signatures).",
     "parts": [
         {"part": "hist", "crate": "vserver", "bin": "c14_hist", "budget_quick": 30, "budget_thorough": 1200},
         {"part": "reads", "crate": "vserver", "bin": "c14_reads", "budget_quick": 8, "budget_thorough": 300},
+        {"part": "faults", "crate": "vserver", "bin": "c14_faults", "budget_quick": 6, "budget_thorough": 300},
     ],
 }
 
